@@ -44,12 +44,14 @@ LEVEL_TEXT = (
     "loop guard, `progress_partial` with the exact guard + the negation `idle_only_spins(+_witness)` for the tree as it is "
     "(finding F1, reproduced through the pool on every run). The clause 'asked to stop when the object disappears' is false "
     "for DELETED events without deletionTimestamp: negation proved (gone_unmarked_not_stopped, orphan_never_stopped, "
-    "gone_unmarked_witness) and reproduced (finding F10). Runtime residue the model cannot exhibit: real threads of sync "
+    "gone_unmarked_witness) and reproduced (finding F10). 'Never crashes' is false for the daemon killer's loop over the live "
+    "running_daemons dict: killer_iteration_raises(+_witness), reproduced (finding F11). Runtime residue the model cannot exhibit: real threads of sync "
     "daemons, CPython's scheduling of same-instant callbacks.")
 THEOREMS = [("Kopf.Props.C09", "Kopf.C09." + n) for n in [
     "at_most_one", "spawn_only_when_none", "started_on_match", "self_exit_is_remembered", "no_restart_after_self_exit",
     "staged", "staged_monotone", "stop_reasons", "exit_reaches_known", "gone_unmarked_not_stopped", "orphan_never_stopped",
-    "gone_unmarked_witness", "progress", "progress_partial", "idle_only_spins", "idle_only_spins_witness"]]
+    "gone_unmarked_witness", "killer_iteration_raises", "iteration_safe_when_stable", "killer_iteration_witness",
+    "progress", "progress_partial", "idle_only_spins", "idle_only_spins_witness"]]
 TIE_THEOREMS = [("Kopf.Tie.C09", "Kopf.C09.Tie." + n) for n in ["stage_eq", "killer_phases_eq", "timers_force_none"]]
 RULE = ("seeded whole-operator histories: 1-2 objects, 1-3 daemons/timers (modes obey/cancel/ignore/exit; cancellation_backoff/"
         "timeout in {None,0,small,large}; timers with interval/idle/both/neither, sharp, initial_delay), optional label filter and "
@@ -778,6 +780,14 @@ def tie_requests(sc: dict, tr: dict) -> tuple[list, list, list, dict]:
         else:
             call1 = next((c for c in calls if c[0]["reason"] == ["FILTERS_MISMATCH"]), None)
             call2 = next((c for c in calls if c[0]["reason"] == ["OPERATOR_PAUSING"]), None)
+        def ended_after_turn(sid: int | None) -> bool:
+            """the instance ended inside a stop call of this cycle, but after its own turn in it was over:
+            for the model that is the cycle followed by an `exit` label"""
+            if sid is None or sid not in inst or inst[sid]["seq_end"] is None or not (e0["seq"] < inst[sid]["seq_end"] < e1["seq"]):
+                return False
+            own = [x["seq"] for _sd, _sd1, evs in calls for x in evs if x.get("sid") == sid and x["e"] in ("set", "done?", "cancel")]
+            return bool(own) and inst[sid]["seq_end"] > max(own)
+
         hreq, himpl = [], []
         for hid, h in hs.items():
             pre = e0["pre"]["running"].get(hid)
@@ -785,7 +795,8 @@ def tie_requests(sc: dict, tr: dict) -> tuple[list, list, list, dict]:
             sid = pre["sid"] if pre else (spawned["sid"] if spawned else None)
             post = e1["post"]["running"].get(hid)
             hreq.append({"id": hid, **cfg_of(sc, h), "matching": hid in e0["matching"], "forever": hid in e0["pre"]["forever"],
-                         "pre": inst_json(pre, e0["seq"]), "ex1": ex_for(sid, call1), "ex2": ex_for(sid, call2)})
+                         "pre": inst_json(pre, e0["seq"]), "ex1": ex_for(sid, call1), "ex2": ex_for(sid, call2),
+                         "exitAfter": ended_after_turn(sid)})
             himpl.append({"id": hid, "spawned": spawned is not None, "run": inst_json(post, e1["seq"]),
                           "forever": hid in e1["post"]["forever"]})
         req = ["C09.cycle", {"now": e0["lt"], "marked": e0["marked"], "paused": paused, "deleted": e0["etype"] == "DELETED",
@@ -1317,6 +1328,10 @@ def extract(ctx: Ctx) -> None:
             raise ExtractError("stop_daemon: a phase sets no reason")
         bb = lambda x: "true" if x else "false"  # noqa: E731
         phases.append(f"{{ needsBackoff := {bb(need_b)}, needsTimeout := {bb(need_t)}, set := {setr}, cancel := {bb(cancel)}, wait := {wait} }}")
+    # ---- daemon_killer: does it iterate the live dict across awaits? (informative, finding F11) ------------------------
+    fk = pyextract.find_def(tree, "daemon_killer")
+    live_loops = [n for n in ast.walk(fk) if isinstance(n, ast.For) and pyextract.norm(n.iter) == "memory.running_daemons.values()"
+                  and any(isinstance(x, ast.Await) for x in ast.walk(n))]
     # ---- _timer: is the after-run idle loop guarded by the stopper? -------------------------------------------------
     guarded = timer_loop_guarded(tree)
     out = pyextract.HEADER.format(src="kopf/_core/engines/daemons.py")
@@ -1328,6 +1343,8 @@ def extract(ctx: Ctx) -> None:
     out += f"/-- both functions set backoff = timeout = None for timers -/\ndef timersForceNone : Bool := {'true' if timers_none else 'false'}\n\n"
     out += ("/-- `while memory.idle_reset_time <= started [and not stopper.is_set()]` in `_timer` (informative: the theorems cover both) -/\n"
             f"def timerIdleLoopGuarded : Bool := {'true' if guarded else 'false'}\n\n")
+    out += ("/-- `for daemon in memory.running_daemons.values(): await ...` in `daemon_killer` (informative, finding F11) -/\n"
+            f"def killerIteratesLiveDict : Bool := {'true' if live_loops else 'false'}\n\n")
     out += "end Kopf.C09.Extracted\n"
     leanio.write_generated("Kopf/Extracted/C09.lean", out)
 
